@@ -5,7 +5,7 @@ CONSTANTS
   N = 2
   WT = {1, 2}
   OT = {7, 8}
-  KS = {1, 2}
+  KS = {1, 2, 4}
   AddCs = {0, 1, 9}
   RepCs <- RepCsFull
   DescSel = {1,2,3,4,5,6,8,9,10,11,12,14,16,18}
